@@ -60,6 +60,33 @@ def tour(ctx, sims: list, opts: dict, cats, what: str, key_of=None) -> list:
     return all_res
 
 
+def random_histories(ctx, what: str, cmds: set, n_quick: int = 16, n_thorough: int = 240) -> None:
+    """I->S: random long histories (5 pages, <= 6 notes each, 6 days) on real directories; every command of kind `cmds` must be a
+    step of Index.tla from the projected pre-state to the projected post-state (Trace_Index)."""
+    from .. import index_random as ir
+    n = n_quick if ctx.quick else n_thorough
+    recs, verdict = ir.run_histories(ctx, [ctx.seed * 1000 + i for i in range(n)], 30 if ctx.quick else 45)
+    mine = [r for r in recs if r["cmd"] in cmds]
+    for r in mine:
+        ctx.add("evaluations")
+        if "corrupt" in r:
+            ctx.violation(f"{what}: after `{r['cmd']}` a store no longer has the shape the directory was written in: {r['corrupt'][:200]}",
+                          {"record": r["id"], "cmd": r["cmd"], "paths": r["paths"], "ok": r["ok"], "today": r["today"],
+                           "pre": r["pre_raw"], "post": r["post_raw"]})
+        elif r["id"] not in verdict:
+            ctx.violation(f"{what}: `{r['cmd']}` {'succeeded' if r['ok'] else 'failed'} where Index.tla says it must "
+                          f"{'fail' if r['ok'] else 'succeed'} (record {r['id']})",
+                          {"record": r["id"], "cmd": r["cmd"], "paths": r["paths"], "ok": r["ok"], "today": r["today"], "pre": r["pre"], "post": r["post"]})
+        elif verdict[r["id"]] is not None:
+            ctx.violation(f"{what}: `{r['cmd']}` (record {r['id']}, day {r['today']}, paths {r['paths']}) ended in a state that is not the "
+                          "Index.tla successor of the state it started in",
+                          {"record": r["id"], "cmd": r["cmd"], "paths": r["paths"], "ok": r["ok"], "today": r["today"], "pre": r["pre"],
+                           "observed_post": {"files": r["post"]["files"], "db": r["post"]["db"]},
+                           "spec_post": {"files": verdict[r["id"]]["files"], "db": verdict[r["id"]]["db"]}})
+    ctx.add("traces_validated_against_impl", len(mine))
+    ctx.set("random_history_commands", len(mine))
+
+
 def finish(ctx, rule: str) -> None:
     sigs = ctx.coverage.pop("_sigs", set())
     ctx.set("distinct_nontrivial", len(sigs))
